@@ -553,6 +553,9 @@ def pokmforms(tier, seed, ci, nc):
                 for args, kw in value_calls(ps, maxk=2):
                     yield ('deccallendm', st, (), args, kw, ps)
                     yield ('deccallstartm', st, (), args, kw, ps)
+            # the selection ends at the receiver itself: posoargs(end='self') (finding D61)
+            for args, kw in value_calls(ps, maxk=1):
+                yield ('deccallendm', 'self', (), args, kw, ps)
             # the forms stacked with an explicit selection of the other kind, in both orders (admissible ones:
             # positional-only prefix up to st, keyword-only selection after it)
             for k_, st in enumerate(nmd):
